@@ -26,6 +26,10 @@ CHECKS = {
                 text="Sets of 0-17 hostile strings around every boundary x max_literals 0..17 x frameworks x positions.", note=TB, ref="4 C10"),
     "C11": dict(category="exploration", technique="runtime monitoring: framework field tables (alias / metadata) of the loaded module checked for injectivity and exact recovery of every key; class-name census",
                 text="Key-style and random hostile keys in the documented domain x unicode option x 4 frameworks; out-of-domain finding probes.", note=TB, ref="4 C11"),
+    "C12": dict(category="exploration", technique="runtime monitoring: differential comparison of the loaded class tables of the flat and nested renderings + ast placement census",
+                text="Tree-shaped inputs (precondition computed from the registry) x frameworks; flat completeness on arbitrary graphs.", note=TB, ref="4 C12"),
+    "C13": dict(category="exploration", technique="runtime monitoring: independent dict-vs-model decision per object occurrence compared with the annotations of the loaded module (library path and real CLI subprocesses)",
+                text="Inputs x field-name lists x regex lists incl. anchor-sensitive alternations through the CLI.", note=TB, ref="4 C13"),
 }
 NOT_YET = {}
 props = [json.loads(l) for l in open(os.path.join(HERE, "properties.jsonl"))]
